@@ -187,6 +187,12 @@ def _run_chunk_inner(pid: str, chunk: list):
             f = dict(f)
             f.setdefault("case", case)
             agg["fails"].append(f)
+    # exact totals per (clause, features) signature, whatever is kept below (input-kind findings excluded later)
+    sig = {}
+    for f in agg["fails"]:
+        k = f["clause"] + "|" + json.dumps(f.get("features", {}), sort_keys=True)
+        sig[k] = sig.get(k, 0) + 1
+    agg["sig_counts"] = sig
     # keep at most a bounded number of fails per (clause, features) per chunk, smallest first
     if len(agg["fails"]) > 40:
         by = {}
@@ -340,8 +346,9 @@ def run_property(pid: str, tier: str, seed: int) -> int:
         "samples": [],
         "harness_errors": [],
         "fail_counts": {},
+        "sig_counts": {},
     }
-    serial = getattr(m, "SERIAL", False) or os.environ.get("VF_SERIAL") == "1"
+    serial =getattr(m, "SERIAL", False) or os.environ.get("VF_SERIAL") == "1"
 
     def absorb(r):
         agg["n"] += r["n"]
@@ -352,6 +359,8 @@ def run_property(pid: str, tier: str, seed: int) -> int:
             agg["stats"][k] = agg["stats"].get(k, 0) + v
         for k, v in r.get("fail_counts", {}).items():
             agg["fail_counts"][k] = agg["fail_counts"].get(k, 0) + v
+        for k, v in r.get("sig_counts", {}).items():
+            agg["sig_counts"][k] = agg["sig_counts"].get(k, 0) + v
         if len(agg["samples"]) < 3:
             agg["samples"] += r["samples"][:1]
         agg["harness_errors"] += r["harness_errors"]
@@ -389,6 +398,23 @@ def run_property(pid: str, tier: str, seed: int) -> int:
             unmatched.append(f)
     for i, n in sorted(hits.items()):
         print(f"KNOWN-FINDING: property={pid} {findings[i]['what']} [{n} failing cases reported this run]")
+    # A recorded finding is identified by a signature; the enumeration is deterministic, so the number of
+    # failing cases carrying that signature is too. MORE matches than recorded on the unchanged tree means
+    # new failures are hiding behind the signature: they are reported, not absorbed.
+    totals = {}
+    for key, cnt in agg["sig_counts"].items():
+        cl, _, ft = key.partition("|")
+        probe = {"clause": cl, "features": json.loads(ft)}
+        for i, e in enumerate(findings):
+            if e["match"].get("kind") == "callsite" and match_finding(e, probe):
+                totals[i] = totals.get(i, 0) + cnt
+                break
+    over = []
+    for i, n in sorted(totals.items()):
+        mx = (findings[i].get("max_hits") or {}).get(tier)
+        if mx is not None and n > mx:
+            over.append((i, n, mx))
+    print("HITS " + json.dumps({"property": pid, "tier": tier, "hits": {json.dumps(findings[i]["match"], sort_keys=True): n for i, n in totals.items()}}))
     coverage = {
         "evaluations": agg["n"],
         "distinct_nontrivial": agg["nontrivial"],
@@ -419,10 +445,17 @@ def run_property(pid: str, tier: str, seed: int) -> int:
             print(f"   clause={cl} features={ft} cases={len(fs)} detail={str(fs[0].get('detail'))[:400]}")
             print(f"   case={json.dumps(fs[0]['case'], default=str)[:400]}")
         rc = 1
-    elif agg["nontrivial"] < floor:
+    if over:
+        for i, n, mx in over:
+            ex = next(f for f in agg["fails"] if match_finding(findings[i], f))
+            p = write_replay(pid, ex)
+            print(f"VIOLATION property={pid} replay={p}")
+            print(f"   {n} failing cases carry the signature of a recorded finding that matched {mx} on the unchanged tree: new failures share it ({findings[i]['what'][:160]})")
+        rc = 1
+    if rc == 0 and agg["nontrivial"] < floor:
         print(f"VACUOUS property={pid}: {agg['nontrivial']} non-trivial cases < floor {floor}")
         rc = 2
-    write_evidence(pid, tier, seed, m.LEVEL, coverage, getattr(m, "ASSUMPTIONS", []), wall, len(unmatched))
+    write_evidence(pid, tier, seed, m.LEVEL, coverage, getattr(m, "ASSUMPTIONS", []), wall, len(unmatched) + len(over))
     print(
         f"{pid} tier={tier} seed={seed} evaluations={agg['n']} nontrivial={agg['nontrivial']} "
         f"classes={len(agg['classes'])} known_hits={sum(hits.values())} violations={len(unmatched)} "
